@@ -363,3 +363,18 @@ Proof.
   - intros g. rewrite Hl. destruct (rlookup rnd g); split; intros H; try (right; discriminate); try discriminate; auto.
     destruct H as [H | H]; [exact H | contradiction].
 Qed.
+
+Lemma skipn_nth_cons {A} (l : list A) a d : a < length l -> skipn a l = nth a l d :: skipn (S a) l.
+Proof.
+  revert a. induction l as [|x t IH]; intros a H; cbn in H; [lia|].
+  destruct a; [reflexivity|]. cbn [skipn nth]. apply IH. lia.
+Qed.
+
+Lemma nth_skipn {A} (l : list A) a i d : nth i (skipn a l) d = nth (a + i) l d.
+Proof.
+  revert l. induction a as [|a IH]; intros l; [reflexivity|].
+  destruct l as [|x t]; [destruct i; reflexivity|]. cbn [skipn]. rewrite IH. reflexivity.
+Qed.
+
+Lemma map_via_seq {A B} (F : A -> B) (l : list A) d : map F l = map (fun t => F (nth t l d)) (seq 0 (length l)).
+Proof. rewrite <- (map_nth_seq l d) at 1. rewrite map_map. reflexivity. Qed.
